@@ -179,8 +179,16 @@ def inst_to_py(ispec):
     import pywbem
     props = []
     for p in ispec['props']:
-        props.append(pywbem.CIMProperty(p['n'], to_py(p['t'], p['v']), type=p['t'], is_array=p['a']))
-    return pywbem.CIMInstance(ispec['cls'], properties=props)
+        kw = {}
+        if p.get('co') is not None:
+            kw['class_origin'] = p['co']
+        if p.get('pg') is not None:
+            kw['propagated'] = p['pg']
+        if p.get('q'):
+            kw['qualifiers'] = [pywbem.CIMQualifier('Description', 'q of ' + p['n'])]
+        props.append(pywbem.CIMProperty(p['n'], to_py(p['t'], p['v']), type=p['t'], is_array=p['a'], **kw))
+    quals = [pywbem.CIMQualifier('Description', 'instance qualifier')] if ispec.get('q') else None
+    return pywbem.CIMInstance(ispec['cls'], properties=props, qualifiers=quals)
 
 
 # --------------------------------------------------------------------------------------------- canonical JSON
@@ -242,7 +250,9 @@ def enc_val(v):
 
 
 def enc_prop(p):
-    return {'n': common.cps(p.name), 't': common.cps(p.type), 'a': bool(p.is_array), 'v': enc_val(p.value)}
+    return {'n': common.cps(p.name), 't': common.cps(p.type), 'a': bool(p.is_array), 'v': enc_val(p.value),
+            'co': None if p.class_origin is None else common.cps(p.class_origin), 'q': bool(p.qualifiers),
+            'pg': p.propagated}
 
 
 def enc_props(props):
@@ -260,19 +270,12 @@ def sort_props(l):
 
 
 def enc_inst(i):
-    return {'c': common.cps(i.classname), 'p': enc_props(i.properties)}
+    return {'c': common.cps(i.classname), 'p': enc_props(i.properties), 'q': bool(i.qualifiers)}
 
 
 def enc_rinst(i):
-    extra = {}
-    if i.qualifiers:
-        extra['quals'] = sorted(i.qualifiers.keys())
-    for p in i.properties.values():
-        if p.qualifiers or p.class_origin is not None:
-            extra.setdefault('propattrs', []).append(p.name)
-    d = {'c': common.cps(i.classname), 'path': None if i.path is None else enc_path(i.path), 'p': enc_props(i.properties)}
-    d.update(extra)
-    return d
+    return {'c': common.cps(i.classname), 'path': None if i.path is None else enc_path(i.path),
+            'p': enc_props(i.properties), 'q': bool(i.qualifiers)}
 
 
 def enc_class(c):
@@ -282,7 +285,7 @@ def enc_class(c):
                       'key': 'key' in p.qualifiers, 'd': enc_val(p.value),
                       'ei': common.cps(p.qualifiers['EmbeddedInstance'].value)
                       if 'EmbeddedInstance' in p.qualifiers and p.qualifiers['EmbeddedInstance'].value is not None else None,
-                      'eo': 'EmbeddedObject' in p.qualifiers})
+                      'eo': 'EmbeddedObject' in p.qualifiers, 'pg': bool(p.propagated)})
     return {'name': common.cps(c.classname), 'super': None if c.superclass is None else common.cps(c.superclass),
             'assoc': bool(c.qualifiers.get('Association', False)), 'props': props}
 
@@ -388,7 +391,8 @@ def loose_path(p):
 
 def loose_props(ps):
     return sorted(({'n': _lowc(p['n']), 't': p['t'], 'a': p['a'],
-                    'v': loose_kv(p['v']) if p['v'] is not None and 'a' not in p['v'] else p['v']} for p in ps), key=json.dumps)
+                    'v': loose_kv(p['v']) if p['v'] is not None and 'a' not in p['v'] else p['v'],
+                    'co': p.get('co'), 'q': p.get('q'), 'pg': p.get('pg')} for p in ps), key=json.dumps)
 
 
 def loose_out(o):
@@ -399,8 +403,7 @@ def loose_out(o):
     ok = o['ok']
     if 'path' in ok:
         return {'ok': {'path': loose_path(ok['path'])}}
-    li = lambda i: {'c': _lowc(i['c']), 'path': loose_path(i['path']), 'p': loose_props(i['p']),
-                    'x': [i.get('quals'), i.get('propattrs')]}
+    li = lambda i: {'c': _lowc(i['c']), 'path': loose_path(i['path']), 'p': loose_props(i['p']), 'q': i.get('q')}
     if 'inst' in ok:
         return {'ok': {'inst': li(ok['inst'])}}
     if 'insts' in ok:
@@ -411,7 +414,8 @@ def loose_out(o):
 def loose_state(st):
     return [{'name': _lowc(e['name']),
              'insts': sorted(({'key': loose_path(s['key']), 'path': loose_path(s['path']),
-                               'inst': {'c': _lowc(s['inst']['c']), 'p': loose_props(s['inst']['p'])}} for s in e['insts']),
+                               'inst': {'c': _lowc(s['inst']['c']), 'p': loose_props(s['inst']['p']),
+                                        'q': s['inst'].get('q')}} for s in e['insts']),
                              key=json.dumps)} for e in st]
 
 
@@ -783,7 +787,58 @@ class Gen:
 
     def history(self):
         n = self.rng.randint(4, 25)
-        return [self.op_any() for _ in range(n)]
+        return [self.decorate(self.op_any()) for _ in range(n)]
+
+    def slashes(self, ns):
+        rng = self.rng
+        if ns is None or rng.random() >= 0.1:
+            return ns
+        return rng.choice(['/', '//', '']) + ns + rng.choice(['/', '///', ''])
+
+    def opt(self):
+        r = self.rng.random()
+        return None if r < 0.5 else True if r < 0.74 else False if r < 0.985 else 'other'
+
+    def decorate(self, op):
+        """client-side variation that must not change the request: namespace with slashes or taken from the object,
+        class name as CIMClassName, PropertyList as string / tuple, the retrieval options, attributes of the
+        properties (class origin, qualifiers, propagated); and, rarely, arguments of a wrong Python type"""
+        rng = self.rng
+        kind = op['op']
+        if kind in ('create', 'modify'):
+            for p in op['inst']['props']:
+                if rng.random() < 0.15:
+                    p['co'] = rng.choice(self.names + ['Some_Other_Class', ''])
+                if rng.random() < 0.10:
+                    p['q'] = True
+                if rng.random() < 0.15:
+                    p['pg'] = rng.random() < 0.5
+            if rng.random() < 0.10:
+                op['inst']['q'] = True
+        if kind in ('create', 'enum', 'names'):
+            op['ns'] = self.slashes(op['ns'])
+        if kind == 'create' and rng.random() < 0.1:
+            op['ipathns'] = True
+        if kind in ('enum', 'names'):
+            op['clsform'] = rng.choice(['str'] * 7 + ['cn', 'cn_ns', 'cn_ns'])
+        if kind in ('modify', 'get', 'enum'):
+            r = rng.random()
+            pl = op.get('pl')
+            op['plform'] = ('str' if pl is not None and len(pl) == 1 and r < 0.5 else 'tuple' if r < 0.2 else
+                            'baditem' if r > 0.985 and pl is not None else 'other' if r > 0.975 and r <= 0.985 else 'list')
+        if kind == 'modify':
+            op['iq'] = self.opt()
+        if kind in ('get', 'enum'):
+            for k in ('lo', 'iq', 'ico'):
+                op[k] = self.opt()
+            if kind == 'enum' and rng.random() < 0.01:
+                op['di'] = 'other'
+        if rng.random() < 0.025:
+            op['badarg'] = rng.choice({'create': ['inst', 'ns'], 'modify': ['inst', 'nopath', 'nopath'],
+                                       'delete': ['name_none', 'name_str', 'name_cls'],
+                                       'get': ['name_none', 'name_str', 'name_cls'],
+                                       'enum': ['cls', 'ns'], 'names': ['cls', 'ns']}[kind])
+        return op
 
     def multins_history(self):
         """directed stream: association instances whose ends lie in other namespaces, then operations on every copy"""
@@ -819,7 +874,7 @@ class Gen:
                 if ops[-1]['op'] == 'names':
                     del ops[-1]['di'], ops[-1]['pl']
             self.pool = whole
-        return ops
+        return [self.decorate(o) for o in ops]
 
 
 def gen_schema(rng, mofs):
@@ -878,95 +933,367 @@ def mutate_inst(rng, i):
         mutate_path(rng, i.path)
 
 
+OTHER = {'other': True}
+
+
+# ------------------------------------------------------------------ identities of the mutable objects (isolation)
+
+def _objs_of_path(p, out):
+    """every mutable Python object a CIMInstanceName consists of"""
+    import pywbem
+    out.append(p)
+    out.append(p.keybindings)
+    for v in p.keybindings.values():
+        if isinstance(v, pywbem.CIMInstanceName):
+            _objs_of_path(v, out)
+
+
+def _objs_of_value(v, out):
+    import pywbem
+    if isinstance(v, list):
+        out.append(v)
+        for x in v:
+            _objs_of_value(x, out)
+    elif isinstance(v, pywbem.CIMInstanceName):
+        _objs_of_path(v, out)
+    elif isinstance(v, pywbem.CIMInstance):
+        _objs_of_inst(v, out)
+
+
+def _objs_of_inst(i, out):
+    out.append(i)
+    out.append(i.properties)
+    out.append(i.qualifiers)
+    out.extend(i.qualifiers.values())
+    for pr in i.properties.values():
+        out.append(pr)
+        out.append(pr.qualifiers)
+        out.extend(pr.qualifiers.values())
+        _objs_of_value(pr.value, out)
+    if i.path is not None:
+        _objs_of_path(i.path, out)
+
+
+def objs_of(o):
+    import pywbem
+    out = []
+    if isinstance(o, pywbem.CIMInstance):
+        _objs_of_inst(o, out)
+    elif isinstance(o, pywbem.CIMInstanceName):
+        _objs_of_path(o, out)
+    return out
+
+
+def store_objs(conn):
+    out = []
+    for ns in conn.namespaces:
+        for k, v in conn.cimrepository.get_instance_store(ns)._data.items():   # noqa
+            _objs_of_path(k, out)
+            _objs_of_inst(v, out)
+    return out
+
+
+def nodes_of(o):
+    """the nodes of Model/StoreAlias.lean: (python object standing for the node) in the order of InstO.nodes / PathO.nodes"""
+    import pywbem
+    if isinstance(o, pywbem.CIMInstanceName):
+        return [o] + [v for v in o.keybindings.values() if isinstance(v, pywbem.CIMInstanceName)]
+    out = [o]
+    for pr in o.properties.values():
+        out.append(pr)
+        if isinstance(pr.value, (list, pywbem.CIMInstanceName, pywbem.CIMInstance)):
+            out.append(pr.value)
+    if o.path is not None:
+        out += nodes_of(o.path)
+    return out
+
+
+def shape_of(o, num):
+    """model shape of a client object; num: id(obj) -> client node number"""
+    import pywbem
+
+    def n(x):
+        return num.setdefault(id(x), len(num))
+    if isinstance(o, pywbem.CIMInstanceName):
+        return {'id': n(o), 'kids': [n(v) for v in o.keybindings.values() if isinstance(v, pywbem.CIMInstanceName)]}
+    return {'id': n(o),
+            'props': [{'id': n(pr), 'vals': [n(pr.value)] if isinstance(pr.value, (list, pywbem.CIMInstanceName, pywbem.CIMInstance)) else []}
+                      for pr in o.properties.values()],
+            'path': None if o.path is None else shape_of(o.path, num)}
+
+
+def arg_ns(ns, other=False):
+    """namespace argument -> (python value, call JSON)"""
+    if other:
+        return 5, OTHER
+    return ns, (None if ns is None else common.cps(ns))
+
+
+def arg_bool(v):
+    if v == 'other':
+        return 'yes', OTHER
+    return v, v
+
+
+def arg_pl(pl, form):
+    """PropertyList -> (python value, call JSON); form: list / tuple / str (one name) / baditem / other"""
+    if form == 'other':
+        return 5, OTHER
+    if pl is None:
+        return None, None
+    if form == 'baditem':
+        return list(pl) + [5], {'baditem': True}
+    if form == 'str' and len(pl) == 1:
+        return pl[0], {'s': common.cps(pl[0])}
+    if form == 'tuple':
+        return tuple(pl), [common.cps(x) for x in pl]
+    return list(pl), [common.cps(x) for x in pl]
+
+
 def execute(schema, ops, mutate=True):
     """run the op specs on a fresh real repository -> (model request, canonical real outcomes, final state)"""
     import pywbem
     conn = build_conn(schema)
     rng = random.Random(0)
-    req_ops, outs = [], []
+    calls, outs = [], []
+    held, client_ids, iso, num = [], set(), None, {}     # objects the client holds (kept alive), their identities
+    alias_ops, alias_real, model_entries = [], [], 0
     for op in ops:
         kind = op['op']
-        try:
-            if kind == 'create':
-                inst = inst_to_py(op['inst'])
-                req_ops.append({'op': 'create', 'ns': None if op['ns'] is None else common.cps(op['ns']),
-                                'inst': enc_inst_req(inst)})
-                given = [inst]
-            elif kind == 'modify':
-                inst = inst_to_py(op['inst'])
+        bad = op.get('badarg')
+        given = []
+        kw = {}
+        pl = None
+        if kind in ('create', 'modify'):
+            inst = inst_to_py(op['inst'])
+            ij = enc_inst_req(inst)
+            ipath = None
+            if kind == 'modify':
                 path = path_to_py(op['path'])
-                inst.path = path          # assigned after construction: no key propagation into the path
-                req_ops.append({'op': 'modify', 'path': enc_path(path), 'inst': enc_inst_req(inst),
-                                'pl': None if op['pl'] is None else [common.cps(x) for x in op['pl']]})
-                given = [inst, path]
-            elif kind in ('delete', 'get'):
-                path = path_to_py(op['path'])
-                r = {'op': kind, 'path': enc_path(path)}
-                if kind == 'get':
-                    r['pl'] = None if op['pl'] is None else [common.cps(x) for x in op['pl']]
-                req_ops.append(r)
-                given = [path]
-            elif kind == 'enum':
-                req_ops.append({'op': 'enum', 'ns': None if op['ns'] is None else common.cps(op['ns']),
-                                'cls': common.cps(op['cls']), 'di': op['di'],
-                                'pl': None if op['pl'] is None else [common.cps(x) for x in op['pl']]})
-                given = []
-            elif kind == 'names':
-                req_ops.append({'op': 'names', 'ns': None if op['ns'] is None else common.cps(op['ns']),
-                                'cls': common.cps(op['cls'])})
-                given = []
+                if bad != 'nopath':
+                    inst.path = path       # assigned after construction: no key propagation into the path
+                    ipath = enc_path(path)
+                    given.append(path)
+                iqv, iqj = arg_bool(op.get('iq'))
+                pl, plj = arg_pl(op['pl'], op.get('plform', 'list'))
+                call = {'call': 'modify', 'inst': ij, 'ipath': ipath, 'iq': iqj, 'pl': plj}
+                kw = {'PropertyList': pl}
+                if op.get('iq') is not None:
+                    kw['IncludeQualifiers'] = iqv
             else:
-                raise ValueError(kind)
-        except Unsupported:
-            raise
-        pl = copy.copy(op.get('pl'))
+                nsv, nsj = arg_ns(op['ns'], bad == 'ns')
+                if op.get('ipathns') and op['ns'] is not None and bad is None:
+                    inst.path = pywbem.CIMInstanceName(inst.classname, namespace=op['ns'])
+                    ipath = enc_path(inst.path)
+                    nsv, nsj = None, None
+                call = {'call': 'create', 'inst': ij, 'ipath': ipath, 'ns': nsj}
+                kw = {'namespace': nsv}
+            given.append(inst)
+            target = inst
+            if bad == 'inst':
+                target = rng.choice(['not an instance', None, 5])
+                call['inst'] = OTHER
+                call['ipath'] = None
+        elif kind in ('delete', 'get'):
+            path = path_to_py(op['path'])
+            given.append(path)
+            target = path
+            call = {'call': kind, 'name': enc_path(path)}
+            if bad in ('name_none', 'name_str', 'name_cls'):
+                target = {'name_none': None, 'name_str': 'TST_P.k=1', 'name_cls': pywbem.CIMClassName('TST_P')}[bad]
+                call['name'] = OTHER
+            if kind == 'get':
+                pl, plj = arg_pl(op['pl'], op.get('plform', 'list'))
+                call['pl'] = plj
+                kw = {'PropertyList': pl}
+                for k_, a_ in (('lo', 'LocalOnly'), ('iq', 'IncludeQualifiers'), ('ico', 'IncludeClassOrigin')):
+                    v_, j_ = arg_bool(op.get(k_))
+                    call[k_] = j_
+                    if op.get(k_) is not None:
+                        kw[a_] = v_
+        else:
+            nsv, nsj = arg_ns(op['ns'], bad == 'ns')
+            form = op.get('clsform', 'str')
+            if bad == 'cls':
+                target, clsj = rng.choice([None, 5]), OTHER
+            elif form == 'cn':
+                target, clsj = pywbem.CIMClassName(op['cls']), {'cn': common.cps(op['cls']), 'ns': None}
+            elif form == 'cn_ns' and op['ns'] is not None and bad is None:
+                target = pywbem.CIMClassName(op['cls'], namespace=op['ns'])
+                clsj = {'cn': common.cps(op['cls']), 'ns': None if target.namespace is None else common.cps(target.namespace)}
+                nsv, nsj = None, None
+            else:
+                target, clsj = op['cls'], common.cps(op['cls'])
+            call = {'call': kind, 'cls': clsj, 'ns': nsj}
+            kw = {'namespace': nsv}
+            if kind == 'enum':
+                pl, plj = arg_pl(op['pl'], op.get('plform', 'list'))
+                call['pl'] = plj
+                kw['PropertyList'] = pl
+                for k_, a_ in (('lo', 'LocalOnly'), ('di', 'DeepInheritance'), ('iq', 'IncludeQualifiers'),
+                               ('ico', 'IncludeClassOrigin')):
+                    v_, j_ = arg_bool(op.get(k_))
+                    call[k_] = j_
+                    if op.get(k_) is not None:
+                        kw[a_] = v_
+        calls.append(call)
+        handed = []
         try:
             if kind == 'create':
-                res = conn.CreateInstance(inst, namespace=op['ns'])
+                res = conn.CreateInstance(target, **kw)
                 out = {'ok': {'path': enc_path(res)}}
                 handed = [res]
             elif kind == 'modify':
-                conn.ModifyInstance(inst, PropertyList=pl)
+                conn.ModifyInstance(target, **kw)
                 out = {'ok': None}
-                handed = []
             elif kind == 'delete':
-                conn.DeleteInstance(path)
+                conn.DeleteInstance(target)
                 out = {'ok': None}
-                handed = []
             elif kind == 'get':
-                res = conn.GetInstance(path, PropertyList=pl)
+                res = conn.GetInstance(target, **kw)
                 out = {'ok': {'inst': enc_rinst(res)}}
                 handed = [res]
             elif kind == 'enum':
-                kw = {}
-                if op['di'] is not None:
-                    kw['DeepInheritance'] = op['di']
-                res = conn.EnumerateInstances(op['cls'], namespace=op['ns'], PropertyList=pl, **kw)
+                res = conn.EnumerateInstances(target, **kw)
                 out = {'ok': {'insts': [enc_rinst(i) for i in res]}}
                 handed = list(res)
             else:
-                res = conn.EnumerateInstanceNames(op['cls'], namespace=op['ns'])
+                res = conn.EnumerateInstanceNames(target, **kw)
                 out = {'ok': {'paths': [enc_path(p) for p in res]}}
                 handed = list(res)
         except Exception as e:  # noqa
             out = common.exc_json(e)
-            handed = []
         outs.append(out)
+        # ---- isolation by identity: nothing the repository holds is an object the client holds
+        input_nodes = [x for o in given for x in nodes_of(o)] if 'ok' in out else []
+        handed_nodes = [x for o in handed for x in nodes_of(o)]
+        for o in given + handed:
+            for x in objs_of(o):
+                held.append(x)
+                client_ids.add(id(x))
+        if iso is None:
+            shared = [type(x).__name__ for x in store_objs(conn) if id(x) in client_ids]
+            if shared:
+                iso = {'index': len(outs) - 1, 'op': kind, 'shared': sorted(set(shared))}
+        # ---- the same operation for the alias model (successful operations only)
+        if 'ok' in out:
+            a = None
+            if kind == 'create':
+                a = {'a': 'create', 'x': shape_of(given[-1], num), 'keys': []}
+                model_entries += 1
+            elif kind == 'modify' and model_entries:
+                a = {'a': 'modify', 'x': shape_of(given[-1], num), 'idx': 0, 'others': 0}
+            elif kind == 'delete' and model_entries:
+                a = {'a': 'delete', 'idx': 0}
+                model_entries -= 1
+            elif kind == 'get' and model_entries:
+                a = {'a': 'get', 'name': shape_of(given[0], num), 'idx': 0}
+            elif kind == 'enum' and model_entries and handed:
+                a = {'a': 'enumInsts', 'idxs': [0] * len(handed)}
+            elif kind == 'names' and model_entries and handed:
+                a = {'a': 'enumNames', 'idxs': [0] * len(handed)}
+            if a is not None:
+                inp = set(id(x) for x in input_nodes)
+                earlier = alias_real[-1]['_seen'] if alias_real else set()
+                alias_ops.append(a)
+                alias_real.append({'sharedWithInput': sum(1 for x in handed_nodes if id(x) in inp),
+                                   'sharedWithEarlier': sum(1 for x in handed_nodes if id(x) in earlier),
+                                   '_seen': earlier | set(id(x) for x in handed_nodes)})
         if mutate:
             for o in given + handed:
                 if isinstance(o, pywbem.CIMInstance):
                     mutate_inst(rng, o)
-                else:
+                elif isinstance(o, pywbem.CIMInstanceName):
                     mutate_path(rng, o)
             if isinstance(pl, list):
                 pl.append('mutated')
-    req = {'dflt': common.cps(conn.default_namespace), 'nss': model_nss(conn), 'ops': req_ops}
+    req = {'dflt': common.cps(conn.default_namespace), 'nss': model_nss(conn), 'calls': calls}
+    req['ops'] = [call_to_op(c) for c in calls]      # for the oracle only (the driver reads "calls")
+    req['iso'] = iso
+    req['alias'] = {'ops': alias_ops, 'real': [{k: v for k, v in r_.items() if not k.startswith('_')} for r_ in alias_real]}
     return req, outs, dump_state(conn)
+
+
+def _strip(cpsl):
+    s_ = common.from_cps(cpsl).strip('/')
+    return common.cps(s_)
+
+
+def call_to_op(call):
+    """independent re-statement of the client-side argument handling (WBEMConnection methods before _imethodcall):
+    the request in the form RefMap.expect reads, or ('exc', name) for the documented TypeError / ValueError"""
+    def is_other(x):
+        return isinstance(x, dict) and x.get('other')
+
+    def ns_of(x):
+        if is_other(x):
+            raise TypeError
+        return None if x is None else _strip(x)
+
+    def bool_of(x):
+        if is_other(x):
+            raise TypeError
+        return x
+
+    def pl_of(x):
+        if x is None:
+            return None
+        if isinstance(x, dict):
+            if x.get('other') or x.get('baditem'):
+                raise TypeError
+            return [x['s']]
+        return list(x)
+
+    def cls_of(x):
+        if is_other(x):
+            raise TypeError
+        return x['cn'] if isinstance(x, dict) else x
+
+    kind = call['call']
+    try:
+        if kind == 'create':
+            ns = call['ns']
+            if ns is None and not is_other(call['inst']) and call['ipath'] is not None and call['ipath']['n'] is not None:
+                ns = call['ipath']['n']
+            ns = ns_of(ns)
+            if is_other(call['inst']):
+                raise TypeError
+            return {'op': 'create', 'ns': ns, 'inst': call['inst']}
+        if kind == 'modify':
+            if is_other(call['inst']):
+                raise TypeError
+            if call['ipath'] is None:
+                raise ValueError
+            bool_of(call['iq'])
+            return {'op': 'modify', 'path': call['ipath'], 'inst': call['inst'], 'pl': pl_of(call['pl'])}
+        if kind in ('delete', 'get'):
+            if is_other(call['name']):
+                raise TypeError
+            if kind == 'delete':
+                return {'op': 'delete', 'path': call['name']}
+            for k in ('lo', 'iq', 'ico'):
+                bool_of(call[k])
+            return {'op': 'get', 'path': call['name'], 'pl': pl_of(call['pl'])}
+        ns = call['ns']
+        if ns is None and isinstance(call['cls'], dict) and not is_other(call['cls']) and call['cls']['ns'] is not None:
+            ns = call['cls']['ns']
+        ns = ns_of(ns)
+        cls = cls_of(call['cls'])
+        if kind == 'names':
+            return {'op': 'names', 'ns': ns, 'cls': cls}
+        for k in ('lo', 'di', 'iq', 'ico'):
+            bool_of(call[k])
+        return {'op': 'enum', 'ns': ns, 'cls': cls, 'di': call['di'], 'pl': pl_of(call['pl'])}
+    except TypeError:
+        return ('exc', 'TypeError')
+    except ValueError:
+        return ('exc', 'ValueError')
 
 
 def enc_inst_req(inst):
     """request instance: properties in dict order (the model keeps the order; results are compared sorted)"""
-    return {'c': common.cps(inst.classname), 'p': [enc_prop(p) for p in inst.properties.values()]}
+    return {'c': common.cps(inst.classname), 'p': [enc_prop(p) for p in inst.properties.values()],
+            'q': bool(inst.qualifiers)}
 
 
 # --------------------------------------------------------------------------------------------- the oracle: reference map
@@ -1017,7 +1344,7 @@ def nprops(props, pl=None):
     d = {}
     for p in props:
         if pl is None or low(p['n']) in pl:
-            d[low(p['n'])] = (tuple(p['t']), p['a'], nval(p['v']))
+            d[low(p['n'])] = (tuple(p['t']), p['a'], nval(p['v']), p.get('pg'))
     return d
 
 
@@ -1173,28 +1500,28 @@ class RefMap:
             new = {}
             if pl is None:
                 for n, p in supplied.items():
-                    new[n] = (tuple(p['t']), p['a'], nval(p['v']), p['v'])
+                    new[n] = (tuple(p['t']), p['a'], nval(p['v']), p.get('pg'), p['v'])
             else:
                 for pn in pl:
                     n = low(pn)
                     if n in supplied:
                         p = supplied[n]
-                        new[n] = (tuple(p['t']), p['a'], nval(p['v']), p['v'])
+                        new[n] = (tuple(p['t']), p['a'], nval(p['v']), p.get('pg'), p['v'])
                     else:
                         d = self.decl(c, pn)
                         if d['key'] and (n not in old['props'] or old['props'][n][2] != nval(d['d'])):
                             return ('err', PARAM)
-                        new[n] = (tuple(d['t']), d['a'], nval(d['d']), d['d'])
+                        new[n] = (tuple(d['t']), d['a'], nval(d['d']), None, d['d'])
             if c['assoc']:
-                for n, (t, a, nv, raw) in new.items():
+                for n, (t, a, nv, pg, raw) in new.items():
                     if t == REFT:
                         if raw is None:
                             return ('err', PARAM)
                         if (n not in old['props'] or old['props'][n][2] != nv) and not self.endpoint_ok(raw):
                             return ('err', PARAM)
             merged = dict(old['props'])
-            for n, (t, a, nv, raw) in new.items():
-                merged[n] = (t, a, nv)
+            for n, (t, a, nv, pg, raw) in new.items():
+                merged[n] = (t, a, nv, pg)
             tg = self.targets_of_props(c, merged, ns)
             if not all(t in self.classes and low(old['cls']) in self.classes[t] for t in tg):
                 return ('err', CLS_INVALID)
@@ -1224,7 +1551,7 @@ class RefMap:
     def targets_of_props(self, c, props, ns):
         out = []
         if c['assoc']:
-            for n, (t, a, nv) in props.items():
+            for n, (t, a, nv, pg) in props.items():
                 if t == REFT and nv is not None and nv[0] == 'r':
                     rn = nv[1][1]
                     if rn is not None and rn and rn != ns and rn not in out:
@@ -1248,15 +1575,14 @@ def observed(out, op, req_dflt):
         return ('ok', ('path', npath(ok['path'], keep_host=True)))
     if 'inst' in ok:
         i = ok['inst']
-        extra = [x for x in ('quals', 'propattrs') if x in i]
-        if extra:
-            return ('ok', ('inst-with', extra))
+        if i.get('q') or any(p.get('q') or p.get('co') is not None for p in i['p']):
+            return ('ok', ('instance-with-qualifiers-or-class-origin',))
         return ('ok', ('inst', low(i['c']), npath(i['path']), nprops(i['p'])))
     if 'insts' in ok:
         s = []
         for i in ok['insts']:
-            if 'quals' in i or 'propattrs' in i:
-                return ('ok', ('inst-with', 'quals'))
+            if i.get('q') or any(p.get('q') or p.get('co') is not None for p in i['p']):
+                return ('ok', ('instance-with-qualifiers-or-class-origin',))
             s.append((npath(i['path']), low(i['c']), frozenset(nprops(i['p']).items())))
         if len(set(s)) != len(s):
             return ('ok', ('duplicates',))
@@ -1283,11 +1609,19 @@ def oracle(run, req, outs, case, final_state=None):
     ref = RefMap(req)
     before = len(run.violations)
     for idx, (op, out) in enumerate(zip(req['ops'], outs)):
-        exp = ref.expect(op)
+        if isinstance(op, tuple):
+            # the client refuses the arguments before sending anything: documented TypeError / ValueError
+            exp = ('leak', op[1])
+            op = {'op': req['calls'][idx]['call'], 'inst': {'p': []}, 'pl': None}
+        else:
+            exp = ref.expect(op)
         obs = observed(out, op, req['dflt'])
         if obs == exp:
             continue
-        if obs[0] == 'leak':
+        if exp[0] == 'leak':
+            sig = {'kind': 'bad_argument_not_refused', 'op': op['op'], 'expected': exp[1],
+                   'got': obs[1] if obs[0] != 'ok' else 'ok', 'input': 'bad_argument'}
+        elif obs[0] == 'leak':
             sig = {'kind': 'undocumented_exception', 'op': op['op'], 'exc': obs[1], 'expected': str(exp[1]) if exp[0] == 'err' else 'ok',
                    'input': op_features(op, req)}
         elif obs[0] == 'err' and exp[0] == 'err':
@@ -1300,6 +1634,8 @@ def oracle(run, req, outs, case, final_state=None):
             sig = {'kind': 'wrong_result', 'op': op['op'], 'input': op_features(op, req)}
         run.violate(sig, case, {'index': idx, 'expected': repr(exp)[:600], 'observed': repr(obs)[:600], 'real': out})
         break       # later outcomes depend on the diverged state
+    if req.get('iso') and len(run.violations) == before:
+        run.violate({'kind': 'shared_object', 'op': req['iso']['op']}, case, req['iso'])
     if final_state is not None and len(run.violations) == before:
         # the repository itself: every stored object sits under its own path, in its own namespace
         for e in final_state:
@@ -1368,9 +1704,22 @@ def run(run):
             continue
         reqs.append(res[2])
         keep.append(res)
-    answers = common.run_driver(PROP, reqs) if reqs else []
-    for (schema, ops, req, outs, state, _), ans in zip(keep, answers):
+    answers = common.run_driver(PROP, [{k_: r_[k_] for k_ in ('dflt', 'nss', 'calls')} for r_ in reqs]) if reqs else []
+    alias_answers = common.run_driver(PROP, [{'alias': r_['alias']['ops']} for r_ in reqs]) if reqs else []
+    for (schema, ops, req, outs, state, _), ans, aans in zip(keep, answers, alias_answers):
         case = {'schema': schema, 'ops': ops}
+        # copy discipline: sharing among the objects the client sees, model (Model/StoreAlias.lean) vs real identities
+        steps = aans.get('steps')
+        if steps is None or len(steps) != len(req['alias']['real']):
+            run.disagree(case, aans, req['alias']['real'], 'alias model: malformed answer')
+        else:
+            for k_, (m_, r_) in enumerate(zip(steps, req['alias']['real'])):
+                run.count('alias_ops')
+                if not m_['storeDisjoint'] or m_['sharedWithInput'] != r_['sharedWithInput'] or \
+                        m_['sharedWithEarlier'] != r_['sharedWithEarlier']:
+                    run.disagree(case, {'step': k_, 'model': m_, 'op': req['alias']['ops'][k_]}, r_,
+                                 'object sharing between client-held objects (alias model)')
+                    break
         wrote = any('ok' in o and op['op'] in ('create', 'modify', 'delete') for o, op in zip(outs, ops))
         read = any('ok' in o and o['ok'] and op['op'] in ('get', 'enum', 'names') and
                    (o['ok'].get('inst') or o['ok'].get('insts') or o['ok'].get('paths')) for o, op in zip(outs, ops))
